@@ -5,7 +5,7 @@
    without NUL (C strings). *)
 From Coq Require Import List NArith ZArith Bool Arith Lia.
 Import ListNotations.
-From CV Require Import Clex.Regex Clex.LexProofs Clex.Driver Clex.DriverProofs Clex.ClexFacts Gen.ClexRules.
+From CV Require Import Clex.Regex Clex.RegexSem Clex.LexProofs Clex.Driver Clex.DriverProofs Clex.ClexFacts Gen.ClexRules.
 
 (* exactly one of the two protocol codes, and no read outside the token array, for every mode,
    index and input (the model of define / replace_macro follows the code as repaired by 47ede41) *)
@@ -37,6 +37,20 @@ Proof.
   intros s n a H. destruct (best_rule_spec _ _ _ _ H) as (pre & r & post & E & L & P1 & P2).
   exists pre, r, post. split; [exact E|]. split; [exact L|]. split; [apply longest_maximal; exact L|]. split; assumption.
 Qed.
+
+(* the matcher the scanner model is built on decides the textbook (relational) meaning of the patterns,
+   for every pattern and every byte string: derivatives with the simplifying constructors lose nothing *)
+Theorem C18_matcher_decides_regex_semantics : forall w r, matchb r w = true <-> matches r w.
+Proof. exact matchb_spec. Qed.
+
+(* rule selection against that meaning: the chosen prefix is matched by the chosen rule, no rule of the
+   table matches a longer prefix of the rest of the input, and no earlier rule matches the chosen prefix *)
+Theorem C18_rule_selection_semantic :
+  forall s n a, best_rule clex_rules s = Some (n, a) ->
+  exists pre r post, clex_rules = pre ++ (r, a) :: post /\ 1 <= n <= length s /\ matches r (firstn n s) /\
+    (forall r' a' k, In (r', a') clex_rules -> 1 <= k <= length s -> matches r' (firstn k s) -> k <= n) /\
+    (forall r' a', In (r', a') pre -> ~ matches r' (firstn n s)).
+Proof. exact (best_rule_semantic clex_rules). Qed.
 
 (* the comment action (two nested loops over input()) consumes exactly up to the first "*/" *)
 Theorem C18_comment_action : forall s, eat s = find_close s.
@@ -102,3 +116,14 @@ Example C18_example :
   clex_case (1, 2, 1, [105;110;116;32;97;32;61;32;34;120;34;59;47;42;99;42;47;98;92;10;99;10]%N) =
   [51; 11; 105;110;116;32;34;120;34;59;98;99;10]%Z.
 Proof. vm_compute. reflexivity. Qed.
+
+(* non-vacuity of the semantic statements: on "ab1 " the identifier rule is chosen with the three-byte
+   prefix, and that prefix is in the pattern's language *)
+Example C18_semantic_example :
+  exists a r, best_rule clex_rules [97;98;49;32]%N = Some (3, a) /\ In (r, a) clex_rules /\ matches r [97;98;49]%N.
+Proof.
+  destruct (best_rule clex_rules [97;98;49;32]%N) as [[n a]|] eqn:E; [|vm_compute in E; discriminate].
+  assert (n = 3) by (vm_compute in E; congruence). subst n.
+  destruct (C18_rule_selection_semantic _ _ _ E) as (pre & r & post & R & _ & M & _).
+  exists a, r. split; [reflexivity|]. split; [rewrite R; apply in_or_app; right; left; reflexivity|exact M].
+Qed.
